@@ -5,6 +5,7 @@ import BSModel.Proofs.Html5Agree
 import BSModel.Proofs.EntitiesPopulate
 import BSModel.Gen.EntitiesSource
 import BSModel.Model.EntitiesGlue
+import BSModel.Proofs.EntitiesTokenizer
 import BSModel.Gen.Entities
 import BSModel.Gen.EntitiesFormatters
 /-! # C09 — entity substitution and attribute quoting are reversible for every string
@@ -468,5 +469,110 @@ theorem formatAttribute_roundtrip (X : List (Nat × PStr)) (T : Tbl) (hx : XmlOK
     exact ⟨_, by simp [formatAttribute, hv], formatter_attr_roundtrip X T hx h h5 e he s⟩
 
 example : (AttrVal.list [ofS "a", ofS "b c"]).text = some (ofS "a b c") := by decide
+
+/-! ## the readers are the tokenizer
+
+`BS.Tokenizer` (Model/Tokenizer.lean) mirrors CPython's `html.parser` statement by statement and is tied to the real parser
+by exact equality of callback streams (`./check TK`, C04, C18). Below, the C09 reader models are **proved equal** to that
+tokenizer composed with bs4's handlers (`BS.Adapter.handleEntityref`; `handle_data` appends) on everything the three
+substitutions write, and the round trips are re-stated through `Tokenizer.run`. `P` = the tokenizer's parameters
+(`html.unescape`, `str.lower`), `cfg` = the adapter's; hypotheses: bs4's handler consults the same table as the reader
+(`cfg.entity = T.toChar.get`), `P.lower` leaves the (lower-case) element name alone, and — for attribute values —
+`P.unescape` is the reader's model of `html.unescape` (compared with the real `html.unescape` on every generated case).
+
+GENERAL STATEMENT, not proved: for every `s` without `<` and every closing suffix without `;`,
+`textOf cfg (callbacks of Tokenizer.run on <name>s</name>) = readText T false 0 s` up to the runaway marker — it needs
+in addition the numeric-reference paths (`charRef` = `charrefMatch`, `handleCharref` = `charRef` below 4300 digits), the
+`feed`/`close` hand-over at a `&#` bail (`late`) and the final flush. None of these is reachable from a substituted text. -/
+
+open BS.Tokenizer BS.C09Tok in
+/-- **The text reader is the tokenizer** on written texts: for `o` of the shapes the substitutions write (`Img`), the
+    tokenizer run on `<name>o</name>` yields the start tag, then only data / entity-reference callbacks whose handling by
+    bs4 concatenates to exactly `readText T late 0 o`, then the end tag; no error, nothing left unconsumed. -/
+theorem reader_text_is_tokenizer_on_substituted (P : Params) (cfg : BS.Adapter.ACfg) (T : Tbl)
+    (hcfg : cfg.entity = T.toChar.get) (late : Bool) (name : PStr) (hn : NameOK name) (hl : P.lower name = name)
+    (hcd : cdataContentElements.contains name = false) (o : PStr) (himg : Img T o) :
+    ∃ E ev1 ev2, (run P (writeStartTag0 name ++ o ++ writeEndTag name)).evs = ev1 :: (E ++ [ev2]) ∧
+      ev1.tok = .st name [] ∧ ev2.tok = .et name ∧ (∀ ev ∈ E, ∃ d, ev.tok = .data d ∨ ev.tok = .er d) ∧
+      textOf cfg E = readText T late 0 o ∧
+      (run P (writeStartTag0 name ++ o ++ writeEndTag name)).flag = .ok ∧
+      (run P (writeStartTag0 name ++ o ++ writeEndTag name)).st.s = [] :=
+  run_written P cfg T hcfg late name hn hl hcd o himg
+
+/-- what bs4 accumulates as text from the whole callback stream of `<name>o</name>` -/
+def readThroughTokenizer (P : BS.Tokenizer.Params) (cfg : BS.Adapter.ACfg) (name o : PStr) : PStr :=
+  BS.C09Tok.textOf cfg (BS.Tokenizer.run P (BS.Tokenizer.writeStartTag0 name ++ o ++ BS.Tokenizer.writeEndTag name)).evs
+
+open BS.Tokenizer BS.C09Tok in
+theorem readThroughTokenizer_eq (P : Params) (cfg : BS.Adapter.ACfg) (T : Tbl) (hcfg : cfg.entity = T.toChar.get)
+    (late : Bool) (name : PStr) (hn : NameOK name) (hl : P.lower name = name)
+    (hcd : cdataContentElements.contains name = false) (o : PStr) (himg : Img T o) :
+    readThroughTokenizer P cfg name o = readText T late 0 o := by
+  obtain ⟨E, ev1, ev2, hev, h1, h2, _, htx, _, _⟩ := run_written P cfg T hcfg late name hn hl hcd o himg
+  unfold readThroughTokenizer
+  rw [hev]
+  have : textOf cfg (ev1 :: (E ++ [ev2])) = textOf cfg E := by
+    have e1 : textOf cfg [ev1] = [] := by simp [textOf, toSEv, h1, handled]
+    have e2 : textOf cfg [ev2] = [] := by simp [textOf, toSEv, h2, handled]
+    have : ev1 :: (E ++ [ev2]) = [ev1] ++ E ++ [ev2] := by simp
+    rw [this, textOf_append, textOf_append, e1, e2]; simp
+  rw [this, htx]
+
+open BS.Tokenizer BS.C09Tok in
+/-- `minimal`: written with `substitute_xml`, read back through the tokenizer and bs4's handlers: the original. -/
+theorem xml_text_roundtrip_tokenized (P : Params) (cfg : BS.Adapter.ACfg) (X : List (Nat × PStr)) (T : Tbl)
+    (hx : XmlOK X T = true) (hcfg : cfg.entity = T.toChar.get) (name : PStr) (hn : NameOK name)
+    (hl : P.lower name = name) (hcd : cdataContentElements.contains name = false) (s : PStr) :
+    readThroughTokenizer P cfg name (substXml X s) = s := by
+  unfold substXml
+  rw [readThroughTokenizer_eq P cfg T hcfg false name hn hl hcd _
+    (img_reSub T xmlParticles (xmlRep X) (repOK_xml hx) xml_covers.1 xml_covers.2.1 s)]
+  exact xml_text_roundtrip X T hx false s
+
+open BS.Tokenizer BS.C09Tok in
+/-- `html`: the same for `substitute_html`. -/
+theorem html_text_roundtrip_tokenized (P : Params) (cfg : BS.Adapter.ACfg) (T : Tbl) (h : TblOK T = true)
+    (hcfg : cfg.entity = T.toChar.get) (name : PStr) (hn : NameOK name) (hl : P.lower name = name)
+    (hcd : cdataContentElements.contains name = false) (s : PStr) :
+    readThroughTokenizer P cfg name (substHtml T s) = s := by
+  obtain ⟨h1, _, h60, _, h38⟩ := tblOK_amp h
+  unfold substHtml substHtmlWith
+  rw [readThroughTokenizer_eq P cfg T hcfg false name hn hl hcd _ (img_reSub T T.particlesAmp (htmlRep T) h1 h38 h60 s)]
+  exact html_text_roundtrip T h false s
+
+open BS.Tokenizer BS.C09Tok in
+/-- `html5` (repaired): the same for `substitute_html5`. -/
+theorem html5_text_roundtrip_tokenized (P : Params) (cfg : BS.Adapter.ACfg) (T : Tbl) (h : TblOK T = true)
+    (h5 : Html5FixOK T = true) (hcfg : cfg.entity = T.toChar.get) (name : PStr) (hn : NameOK name)
+    (hl : P.lower name = name) (hcd : cdataContentElements.contains name = false) (s : PStr) :
+    readThroughTokenizer P cfg name (substHtml5 T s) = s := by
+  obtain ⟨h1, _, h60, _⟩ := tblOK_plain h
+  unfold substHtml5 substHtml5With
+  rw [readThroughTokenizer_eq P cfg T hcfg false name hn hl hcd _
+    (img_html5 T T.particles (htmlRep T) h1 (html5FixOK_spec h5).1 h60 s)]
+  exact html5_text_roundtrip T h h5 false s
+
+example : BS.Tokenizer.NameOK (ofS "pre") ∧ BS.Tokenizer.cdataContentElements.contains (ofS "pre") = false :=
+  ⟨⟨112, ofS "re", rfl, by decide, by decide⟩, by decide⟩
+
+open BS.Tokenizer BS.C09Tok in
+/-- **The attribute reader is the tokenizer's `attrValue`** on what `quoted_attribute_value` writes, given that
+    `P.unescape` is the reader's model of `html.unescape`; and in the tag source the value is found where the reader
+    assumes it: after `=`, from the opening quote to the first matching quote (`valueGroup`). -/
+theorem reader_attr_is_tokenizer (P : Params) (T : Tbl) (hP : ∀ x, P.unescape x = unescape T 0 x) (v rest : PStr) :
+    attrValue P (some (quoteAttr v)) = readAttr T (quoteAttr v) ∧
+      valueGroup (61 :: (quoteAttr v ++ 62 :: rest)) = some (1, (quoteAttr v).length) :=
+  ⟨attrValue_quoteAttr P T hP v, valueGroup_quoteAttr v rest⟩
+
+open BS.Tokenizer BS.C09Tok in
+/-- the attribute round trips through the tokenizer's `attrValue`, for the three substitutions -/
+theorem attr_roundtrip_tokenized (P : Params) (X : List (Nat × PStr)) (T : Tbl) (hx : XmlOK X T = true)
+    (h : TblOK T = true) (h5 : Html5FixOK T = true) (hP : ∀ x, P.unescape x = unescape T 0 x) (s : PStr) :
+    attrValue P (some (quoteAttr (substXml X s))) = some s ∧ attrValue P (some (quoteAttr (substHtml T s))) = some s ∧
+      attrValue P (some (quoteAttr (substHtml5 T s))) = some s := by
+  refine ⟨?_, ?_, ?_⟩
+  · rw [attrValue_quoteAttr P T hP]; exact xml_attr_roundtrip X T hx h s
+  · rw [attrValue_quoteAttr P T hP]; exact html_attr_roundtrip T h s
+  · rw [attrValue_quoteAttr P T hP]; exact html5_attr_roundtrip T h h5 s
 
 end BS.Props.C09
